@@ -15,6 +15,14 @@ CHECKS = {
  'C07': ('model_checking', "Sched.tla: displacement of an entitled running instance needs a gainer strictly ahead in the captured queue; model-checked with all queue interleavings, and judged on (pre, captured queue, post) of every recorded cycle.", '6/C07', SCHED_NOTE),
  'C08': ('model_checking', "Sched.tla with a clock: retention keep/expire, frozen keep/no-new, blacklist, for every ordering of down-since, timeout and cycle time within the bounds; same clauses on recorded cycles of the real Cell.", '6/C08', SCHED_NOTE),
 }
+MASTER_NOTE = ("Trusted: TLC 1.8, harness/zkfake.py (kazoo-shaped in-memory ZooKeeper), the projections in harness/master_l2.py. "
+               "Master.tla abstracts the scheduler to 'any legal placement' and is exhaustive for 2 servers / 2 instances; "
+               "the real Master/loader/ZkBackend run un-abstracted in the replay.")
+CHECKS.update({
+ 'C09': ('model_checking', "Master.tla (every storage write one step; reschedule, init_schedule, remove_app, restore_placements, integrity check) model-checked; ZooKeeper-level histories through the real masterapi producers replayed on the real Master over an in-memory ZooKeeper; full /placement dump compared with Master.cell by MasterTrace.tla after every cycle and start-up (existence, no extras, identity, expiry).", '6/C09', MASTER_NOTE),
+ 'C10': ('model_checking', "Master.tla with Crash enabled between any two storage writes of reschedule, load_model and init_schedule: no instance under two servers in ANY state, restart never trips the integrity check, placement = model after restart. On the code: an exception injected at the k-th storage write (sampled k in quick, every k in thorough), stored state examined at the cut, new Master started on it.", '6/C10', MASTER_NOTE, 'TLA+ spec model-checked with TLC (crash between any two writes) + fault enumeration of every storage write on the real Master + TLC trace validation'),
+ 'C11': ('model_checking', "Master.tla LoadModel action property; on the code the model right after load_model() is compared with the store as it was before the restart: every instance recorded under a healthy server is placed there with recorded identity and expiry, nothing unrecorded is placed.", '6/C11', MASTER_NOTE),
+})
 NA = {}
 ALL = ['C%02d' % i for i in range(1, 21)]
 def main():
